@@ -220,6 +220,8 @@ impl<'a> Reader<'a> {
             }
             match self.graph.file(self.ids.fileids[fileid]).input {
                 None => {
+                    // Not produced by any build any more: the record is unusable.
+                    unique_bid = None;
                     obsolete = true;
                 }
                 Some(bid) => {
